@@ -745,22 +745,25 @@ def selftest(ctx) -> None:
     ref.selftest()
 
 
+def _job(ctx, what: str, *args) -> None:
+    """One fork pool for everything (forking is the expensive part on a busy box)."""
+    {"single": _single_shard, "adjacent": _adjacent_shard, "pairs": _pair_shard, "cm": _cm_shard}[what](ctx, *args)
+
+
 def run(ctx) -> None:
-    jobs = []
+    jobs: list[tuple] = [("cm", ctx.n(300, 5000))] * 4
     ns = {}
     for transport, ar in VARIANTS:
         N, _ = baseline(transport, ar, ctx)  # cached here, inherited by the forked shards
         ctx.case(("fault-free", transport, ar), False, "fault-free")
         ns[f"{transport}{'+ar' if ar else ''}"] = N
         for kind in kinds_for(transport):
-            step = 40
-            for lo in range(1, N + 1, step):
-                jobs.append((transport, ar, kind, lo, lo + step - 1))
-    parallel(ctx, _single_shard, jobs)
+            jobs.append(("single", transport, ar, kind, 1, N))
     ctx.notes["fault_free_session_iterations"] = ns
+    jobs += [("pairs", ctx.n(120, 2500))] * 16
     near = INSTANT if ctx.quick else KINDS_ALL
-    adj = [
-        (t, ar, ka, kb, ctx.n(2, 6), dr)
+    jobs += [
+        ("adjacent", t, ar, ka, kb, ctx.n(2, 6), dr)
         for t, ar in VARIANTS
         for ka in near
         for kb in near
@@ -769,11 +772,9 @@ def run(ctx) -> None:
     ]
     # second event inside / at the end of the reconnect started by the first one (a reconnect takes 4..12 iterations)
     losses = ["srv_disc_own", "transport_loss"] if ctx.quick else ["srv_disc_own", "srv_disc_foreign", "transport_loss"]
-    adj += [(t, True, ka, kb, ctx.n(12, 16), "ok", ctx.n(3, 7)) for t in ("udp", "tcp", "secure") for ka in losses for kb in [*losses, "user_disc"] if ka in kinds_for(t) and kb in kinds_for(t)]
-    parallel(ctx, _adjacent_shard, adj)
+    jobs += [("adjacent", t, True, ka, kb, ctx.n(12, 16), "ok", ctx.n(3, 7)) for t in ("udp", "tcp", "secure") for ka in losses for kb in [*losses, "user_disc"] if ka in kinds_for(t) and kb in kinds_for(t)]
+    parallel(ctx, _job, jobs)
     ctx.notes["adjacent_pairs_enumerated"] = {"kinds": near, "max_iterations_apart": ctx.n(2, 6), "also": "loss x loss/user_disc pairs up to %d iterations apart with auto_reconnect" % ctx.n(12, 16)}
-    parallel(ctx, _cm_shard, [(ctx.n(300, 5000),)] * 4)
-    parallel(ctx, _pair_shard, [(ctx.n(120, 2500),)] * 16)
     ctx.exhaustive = False
     ctx.notes["single_events_every_iteration"] = True
 
